@@ -203,6 +203,8 @@ def battery(burst, rate):
         hs.append([t(0)] * (burst + 1) + [t(k * p) for k in range(1, 5)] + [t(4 * p + p / 2), t(5 * p)])
         hs.append([t(0)] * burst + ['0:1'] + ['%d:%d' % (int(k * p), max(0, int(round((k * p - int(k * p)) * 1e9)) - 1)) for k in range(1, 4)])
     hs.append([t(0)] * burst + [t(100)] * (burst + 2) + [t(100.5)] * 3)  # long idle, burst again
+    hs.append([t(0)] + [t(100)] * (2 * burst + 3))                          # bucket left non-empty, idle, then a volley
+    hs.append([t(0), t(0.3)] + [t(0.3)] * (2 * burst + 2) + [t(0.35)] * 2)
     out = []
     for h in hs:
         if out: out.append('--')
@@ -257,6 +259,8 @@ def run(ctx):
             seen.add(v['name'])
             w = v.get('witness', {})
             if binp is None: binp = replay.build('cl')
-            ctx.findings.append(Finding('%s:%s' % (tgt, v['name'][:60]), '%s: %s violated (witness %s)' % (tgt, v['name'], w),
-                                        [binp, 'bucket', str(w.get('burst', 1)), str(w.get('rate', 0))] + battery(w.get('burst', 1), w.get('rate', 0)), w))
+            # native confirmation through the public API: the witness configuration first, then a fixed grid of configurations
+            cfgs = [(w.get('burst', 1), w.get('rate', 0))] + [(4, 20), (2, 1), (1, 0), (3, 5), (20, 50), (0, 3)]
+            script = ' || exit 1; '.join('%s bucket %d %d %s' % (binp, b, r_, ' '.join(battery(b, r_))) for b, r_ in cfgs) + ' || exit 1'
+            ctx.findings.append(Finding('%s:%s' % (tgt, v['name'][:60]), '%s: %s violated (witness %s)' % (tgt, v['name'], w), ['bash', '-c', script], w))
     ctx.models += ['Instant::now / duration_since / Duration::as_secs_f64 / try_from_secs_f64 / from_secs_f64 (see assumptions)'] + sorted(models.USED)
